@@ -1,3 +1,4 @@
+mod c15;
 mod c19;
 mod c20;
 mod campaign;
@@ -21,6 +22,7 @@ fn verif_root() -> String {
 
 fn with_campaign(prop: &str, f: &mut dyn FnMut(&dyn Dispatch) -> i32) -> i32 {
     match prop {
+        "C15" => f(&c15::C15),
         "C19" => f(&c19::C19),
         "C20" => f(&c20::C20),
         _ => {
